@@ -463,7 +463,10 @@ fn eval_node_test(
                 }
             }
         },
-        expr::NodeTest::PI(_) => unimplemented!("Not support `processing-instruction`."),
+        expr::NodeTest::PI(target) => match &node {
+            dom::XmlNode::PI(pi) => Ok(pi.node_name() == *target),
+            _ => Ok(false),
+        },
         expr::NodeTest::Type(ty) => match ty {
             expr::NodeType::Comment => Ok(node.node_type() == dom::NodeType::Comment),
             expr::NodeType::Node => Ok(true),
